@@ -21,6 +21,7 @@ import (
 
 	"github.com/samber/lo"
 
+	"github.com/fatedier/frp/pkg/config/types"
 	v1 "github.com/fatedier/frp/pkg/config/v1"
 
 	"verif/mc/drv"
@@ -145,6 +146,7 @@ type routeCfg struct {
 	RespHeaders bool   `json:"respHeaders"`
 	Enc, Comp   bool
 	Plugin      string `json:"plugin"` // "", http2http, http2https, https2http, https2https
+	Limit       string `json:"limit"`  // "", client, server: bandwidth limit (generous: 50 MB/s) enforced on that side
 }
 
 func bodyOf(kind string) []byte {
@@ -327,6 +329,10 @@ func newWorld(rt routeCfg, timeoutS int64) (*world, string) {
 	setBase := func(b *v1.ProxyBaseConfig) {
 		b.Name, b.LocalIP, b.LocalPort = "web", "127.0.0.1", be.port
 		b.Transport.UseEncryption, b.Transport.UseCompression = rt.Enc, rt.Comp
+		if rt.Limit != "" {
+			b.Transport.BandwidthLimit, _ = types.NewBandwidthQuantity("50MB")
+			b.Transport.BandwidthLimitMode = rt.Limit
+		}
 		switch rt.Plugin {
 		case "http2http":
 			b.Plugin.Type = v1.PluginHTTP2HTTP
@@ -458,6 +464,74 @@ func (w *world) runSeq(seq []reqCase) (viol string, inconclusive string) {
 	return "", ""
 }
 
+// runConcurrent: k user connections at once, n requests each, every request asks for a response of a distinct size;
+// each user must get exactly the responses to its own requests and the backend must see every request once.
+// Supplementary (free-running, not an exhaustive schedule exploration): it exists for state shared between the
+// tunnels of one proxy (pooled buffers, codecs, transports); a failure is re-run before it is reported.
+func (w *world) runConcurrent(k, n int) (viol string, inconclusive string) {
+	w.be.take()
+	errs := make(chan string, k)
+	incs := make(chan string, k)
+	var wg sync.WaitGroup
+	for g := 0; g < k; g++ {
+		wg.Add(1)
+		go func(g int) {
+			defer wg.Done()
+			c, err := w.dial()
+			if err != nil {
+				incs <- "dial: " + err.Error()
+				return
+			}
+			defer c.Close()
+			br := bufio.NewReader(c)
+			for i := 0; i < n; i++ {
+				size := 3000 + 257*g + 17*i
+				rc := reqCase{Method: "POST", Target: fmt.Sprintf("/c/%d/%d", g, i), Body: "small", Status: 200, Framing: "cl", Size: size}
+				_ = c.SetDeadline(time.Now().Add(20 * time.Second))
+				writeRequest(c, w.host, rc)
+				resp, err := http.ReadResponse(br, &http.Request{Method: "POST"})
+				if err != nil {
+					if ne, ok := err.(net.Error); ok && ne.Timeout() {
+						incs <- "timeout"
+						return
+					}
+					errs <- fmt.Sprintf("user %d request %d: no response: %v", g, i, err)
+					return
+				}
+				body, _ := io.ReadAll(resp.Body)
+				resp.Body.Close()
+				if resp.StatusCode != 200 || !bytes.Equal(body, respBody(size)) {
+					errs <- fmt.Sprintf("user %d request %d: asked for a %d-byte response, got status %d with %d bytes (content equal=%v)", g, i, size, resp.StatusCode, len(body), bytes.Equal(body, respBody(size)))
+					return
+				}
+			}
+		}(g)
+	}
+	wg.Wait()
+	select {
+	case e := <-errs:
+		return fmt.Sprintf("%d concurrent user connections, route %+v: %s", k, w.rt, e), ""
+	default:
+	}
+	select {
+	case e := <-incs:
+		return "", e
+	default:
+	}
+	got := map[string]int{}
+	for _, s := range w.be.take() {
+		got[s.URI]++
+	}
+	for g := 0; g < k; g++ {
+		for i := 0; i < n; i++ {
+			if u := fmt.Sprintf("/c/%d/%d", g, i); got[u] != 1 {
+				return fmt.Sprintf("%d concurrent user connections, route %+v: backend saw request %s %d times", k, w.rt, u, got[u]), ""
+			}
+		}
+	}
+	return "", ""
+}
+
 var headerSets = map[string][][2]string{
 	"none":      nil,
 	"multi":     {{"X-Multi", "a"}, {"X-Multi", "b"}, {"Accept", "text/html"}, {"Accept", "application/json;q=0.9"}, {"Cookie", "a=1; b=2"}},
@@ -496,10 +570,12 @@ func main() {
 
 	routes := []routeCfg{{Name: "plain"}, {Name: "rewrite", RewriteHost: true}, {Name: "reqset", ReqHeaders: true}, {Name: "respset", RespHeaders: true},
 		{Name: "all+enc+comp", RewriteHost: true, ReqHeaders: true, RespHeaders: true, Enc: true, Comp: true}}
+	routes = append(routes, routeCfg{Name: "srvlimit+enc+comp", Enc: true, Comp: true, Limit: "server"}, routeCfg{Name: "srvlimit", Limit: "server"}, routeCfg{Name: "clilimit+comp", Comp: true, Limit: "client"})
 	if !c.Quick() {
-		routes = append(routes, routeCfg{Name: "enc", Enc: true}, routeCfg{Name: "comp", Comp: true})
+		routes = append(routes, routeCfg{Name: "enc", Enc: true}, routeCfg{Name: "comp", Comp: true}, routeCfg{Name: "srvlimit+enc", Enc: true, Limit: "server"}, routeCfg{Name: "srvlimit+comp", Comp: true, Limit: "server"})
 	}
 	plugins := []routeCfg{{Name: "http2http", Plugin: "http2http"}, {Name: "http2https", Plugin: "http2https"}, {Name: "https2http", Plugin: "https2http"}, {Name: "https2https", Plugin: "https2https"},
+		{Name: "http2http+comp", Plugin: "http2http", Comp: true}, {Name: "https2http+enc+comp", Plugin: "https2http", Enc: true, Comp: true},
 		{Name: "http2http+rw", Plugin: "http2http", RewriteHost: true, ReqHeaders: true}, {Name: "https2http+rw", Plugin: "https2http", RewriteHost: true, ReqHeaders: true}}
 	methods := []string{"GET", "HEAD", "POST", "PUT", "DELETE", "PATCH", "OPTIONS"}
 	targets := []string{"/", "/a%2Fb", "/a%20b?x=1&y=%26", "//x", "/" + strings.Repeat("seg/", 200) + "?q=" + strings.Repeat("z", 500)}
@@ -652,6 +728,34 @@ func main() {
 	c.Note("inconclusive", inconclusive)
 	if inconclusive > 0 {
 		c.Cap(fmt.Sprintf("%d sequences / worlds inconclusive (timeouts)", inconclusive))
+	}
+	// concurrent users per route kind (supplementary)
+	drv.E2Replayers["concurrent"] = func(raw json.RawMessage) string {
+		var rt routeCfg
+		json.Unmarshal(raw, &rt)
+		w, inc := newWorld(rt, 5)
+		if inc != "" {
+			return ""
+		}
+		defer w.close()
+		v, _ := w.runConcurrent(8, 5)
+		return v
+	}
+	for _, rt := range []routeCfg{{Name: "plain"}, {Name: "enc+comp", Enc: true, Comp: true}, {Name: "http2http+comp", Plugin: "http2http", Comp: true}, {Name: "https2http+enc+comp", Plugin: "https2http", Enc: true, Comp: true}, {Name: "srvlimit+comp", Comp: true, Limit: "server"}} {
+		w, inc := newWorld(rt, 5)
+		if inc != "" {
+			c.Cap("concurrent part, route " + rt.Name + " inconclusive: " + inc)
+			continue
+		}
+		v, inc := w.runConcurrent(8, 5)
+		w.close()
+		c.Count("concurrent:" + rt.Name)
+		if inc != "" {
+			c.Cap("concurrent part, route " + rt.Name + " inconclusive: " + inc)
+		}
+		if v != "" {
+			c.ViolateConfirmed("concurrent", "concurrent:"+rt.Name, v, rt, 2)
+		}
 	}
 	special(c)
 	c.Finish()
